@@ -202,6 +202,47 @@ class Run:
         self.disagreements.append((stream, item, real, model))
 
 
+def default_search(run):
+    """a proof obligation or the correspondence broke but the quick streams showed no failing input:
+    re-run the property's streams at the thorough bounds, time-boxed, and return the first input on
+    which the model-independent oracle says the property fails (and that is not a known finding)."""
+    import signal
+    import random
+    try:
+        import props
+    except Exception:
+        return None
+    reg = props.REGISTRY.get(run.prop)
+    if not reg or run.tier == "thorough":
+        return None
+    budget = int(os.environ.get("VERIF_SEARCH_S", "90"))
+    deep = Run(run.prop, "thorough", run.seed)
+
+    class _Timeout(Exception):
+        pass
+
+    def _alarm(*a):
+        raise _Timeout()
+    old = signal.signal(signal.SIGALRM, _alarm)
+    signal.alarm(budget)
+    try:
+        reg["run"](deep, random.Random(run.seed * 7919 + 13))
+    except _Timeout:
+        pass
+    except Exception:
+        pass
+    finally:
+        signal.alarm(0)
+        signal.signal(signal.SIGALRM, old)
+    run.notes.append(f"failing-input search after a broken proof/correspondence: {deep.evaluations} further evaluations, "
+                     f"{len(deep.failures)} oracle failures")
+    kf = [k for k in known_findings() if k["property"] == run.prop]
+    for (stream, line, real, msg, sig) in deep.failures:
+        if not any(sig and k["signature"] == sig for k in kf):
+            return (stream, line, real, msg)
+    return None
+
+
 def write_replay(prop, kind, payload):
     os.makedirs(os.path.join(VERIF, "replays"), exist_ok=True)
     h = hashlib.md5(json.dumps(payload, sort_keys=True, default=str).encode()).hexdigest()[:10]
@@ -255,7 +296,7 @@ def finish(run: Run, lean, level_text, rule, assumptions, extra_cov=None, search
             broken.append({"what": "correspondence", "stream": d[0], "minimal_disagreeing_input": d[1],
                            "real_output": d[2], "model_output": d[3], "n_disagreements": len(run.disagreements)})
         if broken:
-            found = search(run) if search else None
+            found = search(run) if search else default_search(run)
             if found:
                 stream, line, real, msg = found
                 p = write_replay(run.prop, "violation", {"property": run.prop, "kind": "failing-input (found by search after a broken proof/correspondence)",
